@@ -22,6 +22,9 @@ import (
 
 var errScripted = errors.New("scripted failure")
 
+// ctxWaits: how many more times this process waits for a context that should be cancelled but is not yet.
+var ctxWaits = 5
+
 // gated is one call of a loop into a scripted neighbour: it is announced to the hub when it starts and returns when the
 // driver releases it.
 type gated struct {
@@ -46,8 +49,9 @@ type gatedResult struct {
 // ctxState reports whether the call's context is cancelled; when the loop is known to have left its select, the
 // cancellation (the statement after the exit trace point) is given a moment to happen.
 func (g *gated) ctxState(expectDone bool) string {
-	if expectDone {
-		for i := 0; i < 250 && g.ctx.Err() == nil; i++ {
+	if expectDone && g.ctx.Err() == nil && ctxWaits > 0 {
+		ctxWaits-- // a loop that does not cancel at all is found on the first calls; do not pay the wait for every call
+		for i := 0; i < 50 && g.ctx.Err() == nil; i++ {
 			select {
 			case <-g.ctx.Done():
 			case <-time.After(20 * time.Millisecond):
